@@ -312,9 +312,13 @@ impl Subscriber for SubscriberService {
             }))
         };
 
+        // If the subscription gets deleted while we wait, there is nothing left to wait for.
+        let deleted_fut = subscription.deleted();
+
         tokio::select! {
             response = messages_fut => response,
-            response = timeout_fut => response
+            response = timeout_fut => response,
+            _ = deleted_fut => Err(subscription_not_found(&subscription_name))
         }
     }
 
